@@ -47,6 +47,11 @@ type duplexHTTPCall struct {
 
 	errMu sync.Mutex
 	err   error
+
+	// finished is closed once the call is over (SetError or CloseRead), which
+	// stops the goroutine that watches the context.
+	finished     chan struct{}
+	finishedOnce sync.Once
 }
 
 func newDuplexHTTPCall(
@@ -72,6 +77,7 @@ func newDuplexHTTPCall(
 		requestBodyWriter: pipeWriter,
 		request:           request,
 		responseReady:     make(chan struct{}),
+		finished:          make(chan struct{}),
 	}
 	if err != nil {
 		// We can't construct a request, so we definitely can't send it over the
@@ -157,11 +163,26 @@ func (d *duplexHTTPCall) Read(data []byte) (int, error) {
 	}
 	verifYield("read")
 	n, err := d.response.Body.Read(data)
-	return n, wrapIfRSTError(err)
+	return n, d.wrapResponseBodyError(err)
+}
+
+// wrapResponseBodyError codes errors from reading or closing the response
+// body. If the context has ended, that's the reason the operation failed:
+// report it rather than whatever the transport returned while tearing down
+// the stream.
+func (d *duplexHTTPCall) wrapResponseBodyError(err error) error {
+	if err == nil || errors.Is(err, io.EOF) {
+		return err
+	}
+	if ctxErr := d.ctx.Err(); ctxErr != nil {
+		return wrapIfContextError(ctxErr)
+	}
+	return wrapIfRSTError(err)
 }
 
 func (d *duplexHTTPCall) CloseRead() error {
 	d.BlockUntilResponseReady()
+	defer d.finish()
 	if d.response == nil {
 		return nil
 	}
@@ -170,9 +191,9 @@ func (d *duplexHTTPCall) CloseRead() error {
 		// Even if we can't drain the body (for example, because the context was
 		// canceled), we must close it to release the underlying resources.
 		_ = d.response.Body.Close()
-		return wrapIfRSTError(err)
+		return d.wrapResponseBodyError(err)
 	}
-	return wrapIfRSTError(d.response.Body.Close())
+	return d.wrapResponseBodyError(d.response.Body.Close())
 }
 
 // ResponseStatusCode is the response's HTTP status code.
@@ -224,6 +245,27 @@ func (d *duplexHTTPCall) SetError(err error) {
 	// It's safe to ignore the returned error here. Under the hood, Close calls
 	// CloseWithError, which is documented to always return nil.
 	_ = d.requestBodyReader.Close()
+	d.finish()
+}
+
+// finish marks the call as over. It's safe to call more than once.
+func (d *duplexHTTPCall) finish() {
+	d.finishedOnce.Do(func() { close(d.finished) })
+}
+
+// watchContext ends the call when the context does. HTTP clients (notably
+// net/http's HTTP/2 transport) don't watch the request context while they're
+// blocked reading the request body, which for us is a pipe that stays open
+// until the caller closes the request side. Without this, a canceled or
+// expired context would leave Receive and CloseResponse blocked until the
+// server gives up. Closing the read side of the request body pipe makes the
+// HTTP client abort the stream, which unblocks reads of the response body.
+func (d *duplexHTTPCall) watchContext() {
+	select {
+	case <-d.ctx.Done():
+		d.SetError(d.ctx.Err())
+	case <-d.finished:
+	}
 }
 
 // SetValidateResponse sets the response validation function. The function runs
@@ -247,6 +289,7 @@ func (d *duplexHTTPCall) makeRequest() {
 	// on d.responseReady, so we can't race with them.
 	defer close(d.responseReady)
 	defer verifYield("responseready")
+	go d.watchContext()
 	verifYield("beforedo")
 
 	// Once we send a message to the server, they send a message back and
